@@ -124,9 +124,10 @@ structure State where
   incl : Bool
   deriving Repr
 
-/-- `RenameProcessor::new` -/
+/-- `RenameProcessor::new`: the given names, `KEYWORDS`, and (fix of F09a) `self` -/
 def State.init (avoid : List Name) (incl : Bool) : State :=
-  { stack := [], perm := permStart, avoid := avoid ++ keywords, pool := [], incl := incl }
+  { stack := [], perm := permStart, avoid := avoid ++ keywords ++ [selfName], pool := [],
+    incl := incl }
 
 /-- `RenameProcessor::add` -/
 def State.add (s : State) (real obf : Name) (reuse : Bool) : State :=
@@ -311,8 +312,9 @@ def renameRule (cfg : Config) (es : List Event) : List Event :=
 def renameRuleState (cfg : Config) (es : List Event) : State :=
   runState (State.init (avoidList cfg es) cfg.includeFunctions) es
 
-/-- `Hself`: the name `self` is never *generated* on this run (every generated name is written
-into an `insert`/`insert_local`/`insert_local_function` site). -/
+/-- the name `self` is never *generated* on this run (every generated name is written into an
+`insert`/`insert_local`/`insert_local_function` site).  Since the fix of F09a this holds on
+every run (`Thm.self_never_generated`). -/
 def selfNotGenerated (incl : Bool) (out : List Event) : Bool :=
   out.all fun e =>
     match e with
